@@ -168,6 +168,21 @@ func Scale(q, th int) int {
 	return q
 }
 
+// Begin records the case that is about to run in the scratch directory. A
+// crash of the code under test in a goroutine of its own takes the whole test
+// process down; the driver then reports the recorded case as the failing one.
+func Begin(c any) {
+	d := os.Getenv("VERIF_SCRATCH")
+	if d == "" {
+		return
+	}
+	b, err := json.Marshal(c)
+	if err != nil {
+		return
+	}
+	_ = os.WriteFile(d+"/current-case.json", b, 0o644)
+}
+
 // Eval counts one executed case.
 func (s *Stats) Eval() {
 	s.mu.Lock()
